@@ -146,4 +146,269 @@ theorem positionOf_none_iff (spk : β → Nat → σ) (s : σ) (last : Nat) (bs 
         · exact h b e j hj
       · intro h b hb j hj; exact h b (List.mem_cons_of_mem _ hb) j hj
 
+
+/-! ### the scan with the raise mirrored -/
+
+theorem findFromE_hit_iff (hit : Nat → Option Bool) (n start i : Nat) :
+    findFromE hit start n = some (some i) ↔
+      start ≤ i ∧ i < start + n ∧ hit i = some true ∧ ∀ j, start ≤ j → j < i → hit j = some false := by
+  induction n generalizing start with
+  | zero => simp [findFromE]; intro h1 h2; omega
+  | succ n ih =>
+    simp only [findFromE]
+    cases hs : hit start with
+    | none =>
+      simp only [reduceCtorEq, false_iff, not_and]
+      intro h1 _ h3 h4
+      rcases Nat.eq_or_lt_of_le h1 with e | l
+      · rw [← e, hs] at h3; cases h3
+      · have := h4 start (Nat.le_refl _) l; rw [hs] at this; cases this
+    | some v =>
+      cases v with
+      | true =>
+        simp only [Option.some.injEq]
+        constructor
+        · intro e; subst e; exact ⟨Nat.le_refl _, by omega, hs, fun j h1 h2 => by omega⟩
+        · rintro ⟨h1, _, _, h4⟩
+          rcases Nat.eq_or_lt_of_le h1 with e | l
+          · exact e
+          · have := h4 start (Nat.le_refl _) l; rw [hs] at this; cases this
+      | false =>
+        simp only
+        rw [ih]
+        constructor
+        · rintro ⟨h1, h2, h3, h4⟩
+          refine ⟨by omega, by omega, h3, fun j hj1 hj2 => ?_⟩
+          rcases Nat.eq_or_lt_of_le hj1 with e | l
+          · rw [← e]; exact hs
+          · exact h4 j l hj2
+        · rintro ⟨h1, h2, h3, h4⟩
+          have : start ≠ i := fun e => by rw [e, h3] at hs; cases hs
+          exact ⟨by omega, by omega, h3, fun j hj1 hj2 => h4 j (by omega) hj2⟩
+
+theorem findFromE_end_iff (hit : Nat → Option Bool) (n start : Nat) :
+    findFromE hit start n = some none ↔ ∀ j, start ≤ j → j < start + n → hit j = some false := by
+  induction n generalizing start with
+  | zero => simp [findFromE]; intro j h1 h2; omega
+  | succ n ih =>
+    simp only [findFromE]
+    cases hs : hit start with
+    | none =>
+      simp only [reduceCtorEq, false_iff]
+      intro h; have := h start (Nat.le_refl _) (by omega); rw [hs] at this; cases this
+    | some v =>
+      cases v with
+      | true =>
+        simp only [Option.some.injEq, reduceCtorEq, false_iff]
+        intro h; have := h start (Nat.le_refl _) (by omega); rw [hs] at this; cases this
+      | false =>
+        simp only
+        rw [ih]
+        constructor
+        · intro h j h1 h2
+          rcases Nat.eq_or_lt_of_le h1 with e | l
+          · rw [← e]; exact hs
+          · exact h j l (by omega)
+        · intro h j h1 h2; exact h j (by omega) (by omega)
+
+theorem findFromE_raise_iff (hit : Nat → Option Bool) (n start : Nat) :
+    findFromE hit start n = none ↔
+      ∃ i, start ≤ i ∧ i < start + n ∧ hit i = none ∧ ∀ j, start ≤ j → j < i → hit j = some false := by
+  induction n generalizing start with
+  | zero => simp [findFromE]; intro i h1 h2; omega
+  | succ n ih =>
+    simp only [findFromE]
+    cases hs : hit start with
+    | none =>
+      simp only [true_iff]
+      exact ⟨start, Nat.le_refl _, by omega, hs, fun j h1 h2 => by omega⟩
+    | some v =>
+      have hne : ∀ i, start ≤ i → hit i = none → start < i := by
+        intro i h1 h3
+        rcases Nat.eq_or_lt_of_le h1 with e | l
+        · rw [← e, hs] at h3; cases h3
+        · exact l
+      cases v with
+      | true =>
+        simp only [reduceCtorEq, false_iff, not_exists, not_and]
+        intro i h1 _ h3 h4
+        have := h4 start (Nat.le_refl _) (hne i h1 h3); rw [hs] at this; cases this
+      | false =>
+        simp only
+        rw [ih]
+        constructor
+        · rintro ⟨i, h1, h2, h3, h4⟩
+          refine ⟨i, by omega, by omega, h3, fun j hj1 hj2 => ?_⟩
+          rcases Nat.eq_or_lt_of_le hj1 with e | l
+          · rw [← e]; exact hs
+          · exact h4 j l hj2
+        · rintro ⟨i, h1, h2, h3, h4⟩
+          have := hne i h1 h3
+          exact ⟨i, by omega, by omega, h3, fun j hj1 hj2 => h4 j (by omega) hj2⟩
+
+variable {β : Type}
+
+/-- every position of these branches is derivable and is not a match. -/
+def AllMiss (hit : β → Nat → Option Bool) (lastOf : β → Nat) (bs : List β) : Prop :=
+  ∀ b ∈ bs, ∀ j, j ≤ lastOf b → hit b j = some false
+
+theorem findE_zero_end (hit : β → Nat → Option Bool) (lastOf : β → Nat) (b : β) :
+    findFromE (hit b) 0 (lastOf b + 1) = some none ↔ ∀ j, j ≤ lastOf b → hit b j = some false := by
+  rw [findFromE_end_iff]
+  constructor
+  · intro h j hj; exact h j (Nat.zero_le _) (by omega)
+  · intro h j _ hj; exact h j (by omega)
+
+/-- find-first, answered: `(b, i)` is the lexicographically first match and every position before it derives. -/
+theorem scanE_hit_iff (hit : β → Nat → Option Bool) (lastOf : β → Nat) (bs : List β) (b : β) (i : Nat) :
+    scanE hit lastOf bs = some (some (b, i)) ↔
+      ∃ pre post, bs = pre ++ b :: post ∧ AllMiss hit lastOf pre ∧
+        i ≤ lastOf b ∧ hit b i = some true ∧ ∀ j, j < i → hit b j = some false := by
+  induction bs with
+  | nil => simp [scanE]
+  | cons x xs ih =>
+    simp only [scanE]
+    cases hf : findFromE (hit x) 0 (lastOf x + 1) with
+    | none =>
+      obtain ⟨k, _, hk2, hk3, hk4⟩ := (findFromE_raise_iff _ _ _).mp hf
+      simp only [reduceCtorEq, false_iff, not_exists, not_and]
+      intro pre post e hpre h1 h2 h3
+      cases pre with
+      | nil =>
+        simp only [List.nil_append, List.cons.injEq] at e
+        obtain ⟨rfl, _⟩ := e
+        rcases Nat.lt_trichotomy k i with l | l | l
+        · have := h3 k l; rw [hk3] at this; cases this
+        · rw [l, h2] at hk3; cases hk3
+        · have := hk4 i (Nat.zero_le _) l; rw [h2] at this; cases this
+      | cons p pre =>
+        simp only [List.cons_append, List.cons.injEq] at e
+        obtain ⟨rfl, _⟩ := e
+        have := hpre x (List.mem_cons_self ..) k (by omega); rw [hk3] at this; cases this
+    | some r =>
+      cases r with
+      | some k =>
+        obtain ⟨_, hk2, hk3, hk4⟩ := (findFromE_hit_iff _ _ _ _).mp hf
+        simp only [Option.some.injEq, Prod.mk.injEq]
+        constructor
+        · rintro ⟨rfl, rfl⟩
+          exact ⟨[], xs, rfl, by simp [AllMiss], by omega, hk3, fun j hj => hk4 j (Nat.zero_le _) hj⟩
+        · rintro ⟨pre, post, e, hpre, h1, h2, h3⟩
+          cases pre with
+          | nil =>
+            simp only [List.nil_append, List.cons.injEq] at e
+            obtain ⟨rfl, _⟩ := e
+            refine ⟨rfl, ?_⟩
+            rcases Nat.lt_trichotomy k i with l | l | l
+            · have := h3 k l; rw [hk3] at this; cases this
+            · exact l
+            · have := hk4 i (Nat.zero_le _) l; rw [h2] at this; cases this
+          | cons p pre =>
+            simp only [List.cons_append, List.cons.injEq] at e
+            obtain ⟨rfl, _⟩ := e
+            have := hpre x (List.mem_cons_self ..) k (by omega); rw [hk3] at this; cases this
+      | none =>
+        have hn := (findE_zero_end hit lastOf x).mp hf
+        simp only
+        rw [ih]
+        constructor
+        · rintro ⟨pre, post, e, hpre, h⟩
+          refine ⟨x :: pre, post, by rw [e]; rfl, ?_, h⟩
+          intro b' hb' j hj
+          rcases List.mem_cons.mp hb' with e' | e'
+          · subst e'; exact hn j hj
+          · exact hpre b' e' j hj
+        · rintro ⟨pre, post, e, hpre, h1, h2, h3⟩
+          cases pre with
+          | nil =>
+            simp only [List.nil_append, List.cons.injEq] at e
+            obtain ⟨rfl, _⟩ := e
+            have := hn i h1; rw [h2] at this; cases this
+          | cons p pre =>
+            simp only [List.cons_append, List.cons.injEq] at e
+            obtain ⟨rfl, rfl⟩ := e
+            exact ⟨pre, post, rfl, fun b' hb' => hpre b' (List.mem_cons_of_mem _ hb'), h1, h2, h3⟩
+
+/-- "not mine": every position derives and none matches. -/
+theorem scanE_none_iff (hit : β → Nat → Option Bool) (lastOf : β → Nat) (bs : List β) :
+    scanE hit lastOf bs = some none ↔ AllMiss hit lastOf bs := by
+  induction bs with
+  | nil => simp [scanE, AllMiss]
+  | cons x xs ih =>
+    simp only [scanE]
+    cases hf : findFromE (hit x) 0 (lastOf x + 1) with
+    | none =>
+      obtain ⟨k, _, hk2, hk3, _⟩ := (findFromE_raise_iff _ _ _).mp hf
+      simp only [reduceCtorEq, false_iff]
+      intro h; have := h x (List.mem_cons_self ..) k (by omega); rw [hk3] at this; cases this
+    | some r =>
+      cases r with
+      | some k =>
+        obtain ⟨_, hk2, hk3, _⟩ := (findFromE_hit_iff _ _ _ _).mp hf
+        simp only [Option.some.injEq, reduceCtorEq, false_iff]
+        intro h; have := h x (List.mem_cons_self ..) k (by omega); rw [hk3] at this; cases this
+      | none =>
+        have hn := (findE_zero_end hit lastOf x).mp hf
+        simp only
+        rw [ih]
+        constructor
+        · intro h b hb j hj
+          rcases List.mem_cons.mp hb with e | e
+          · subst e; exact hn j hj
+          · exact h b e j hj
+        · intro h b hb j hj; exact h b (List.mem_cons_of_mem _ hb) j hj
+
+/-- the raise: the first position that is not a miss cannot be derived. -/
+theorem scanE_raise_iff (hit : β → Nat → Option Bool) (lastOf : β → Nat) (bs : List β) :
+    scanE hit lastOf bs = none ↔
+      ∃ pre b post i, bs = pre ++ b :: post ∧ AllMiss hit lastOf pre ∧
+        i ≤ lastOf b ∧ hit b i = none ∧ ∀ j, j < i → hit b j = some false := by
+  induction bs with
+  | nil => simp [scanE]
+  | cons x xs ih =>
+    simp only [scanE]
+    cases hf : findFromE (hit x) 0 (lastOf x + 1) with
+    | none =>
+      obtain ⟨k, _, hk2, hk3, hk4⟩ := (findFromE_raise_iff _ _ _).mp hf
+      simp only [true_iff]
+      exact ⟨[], x, xs, k, rfl, by simp [AllMiss], by omega, hk3, fun j hj => hk4 j (Nat.zero_le _) hj⟩
+    | some r =>
+      have key : ∀ pre b post i, x :: xs = pre ++ b :: post → AllMiss hit lastOf pre → i ≤ lastOf b →
+          hit b i = none → (∀ j, j < i → hit b j = some false) →
+          ∃ pre', pre = x :: pre' ∧ xs = pre' ++ b :: post := by
+        intro pre b post i e hpre h1 h2 h3
+        cases pre with
+        | nil =>
+          simp only [List.nil_append, List.cons.injEq] at e
+          obtain ⟨rfl, _⟩ := e
+          exfalso
+          have : findFromE (hit x) 0 (lastOf x + 1) = none :=
+            (findFromE_raise_iff _ _ _).mpr ⟨i, Nat.zero_le _, by omega, h2, fun j _ hj => h3 j hj⟩
+          rw [hf] at this; cases this
+        | cons p pre' =>
+          simp only [List.cons_append, List.cons.injEq] at e
+          obtain ⟨rfl, rfl⟩ := e
+          exact ⟨pre', rfl, rfl⟩
+      cases r with
+      | some k =>
+        obtain ⟨_, hk2, hk3, _⟩ := (findFromE_hit_iff _ _ _ _).mp hf
+        simp only [reduceCtorEq, false_iff, not_exists, not_and]
+        intro pre b post i e hpre h1 h2 h3
+        obtain ⟨pre', rfl, _⟩ := key pre b post i e hpre h1 h2 h3
+        have := hpre x (List.mem_cons_self ..) k (by omega); rw [hk3] at this; cases this
+      | none =>
+        have hn := (findE_zero_end hit lastOf x).mp hf
+        simp only
+        rw [ih]
+        constructor
+        · rintro ⟨pre, b, post, i, e, hpre, h⟩
+          refine ⟨x :: pre, b, post, i, by rw [e]; rfl, ?_, h⟩
+          intro b' hb' j hj
+          rcases List.mem_cons.mp hb' with e' | e'
+          · subst e'; exact hn j hj
+          · exact hpre b' e' j hj
+        · rintro ⟨pre, b, post, i, e, hpre, h1, h2, h3⟩
+          obtain ⟨pre', rfl, e'⟩ := key pre b post i e hpre h1 h2 h3
+          exact ⟨pre', b, post, i, e', fun b' hb' => hpre b' (List.mem_cons_of_mem _ hb'), h1, h2, h3⟩
+
 end Btc.Scan
